@@ -102,7 +102,10 @@ def cases_for(rng, tier):
 
     dump = {'Dump': {'coolant': True, 'duct': True, 'interval': 0.1},
             'axial_plane': [0.31, 0.07]}
-    single('rod2-dump-planes-3tp', bundle_type(2), 3, setup=dump)
+    c = single('rod2-dump-planes-3tp', bundle_type(2), 3, setup=dump)
+    # scaling and normalisation act on the arrays read from the power file:
+    # a later build must start from the file again
+    c['power_scaling_factor'] = 1.5
     c = single('rod3-pins-hotspot-2tp', bundle_type(3), 2,
                setup={'axial_plane': [0.2]})
     trackcheck.with_pins(c)
@@ -112,6 +115,8 @@ def cases_for(rng, tier):
     c['setup']['Dump'] = {'pins': True, 'interval': 0.2}
     c = single('rod3-dd-metalfuel-2tp', bundle_type(
         3, nd=2, bypass_gap_flow_fraction=0.08), 2)
+    c['total_power'] = 2.5e5
+    c['power_scaling_factor'] = 0.8
     c['types']['a1']['FuelModel'] = copy.deepcopy(FUEL)
     t = scenarios.add_regions(bundle_type(2), 0.6,
                               lower=dict(model='simple', vf_coolant=0.3),
